@@ -180,7 +180,9 @@ func ParseChainID(chainID string) uint64 {
 	revision, err := strconv.ParseUint(splitStr[len(splitStr)-1], 10, 64)
 	// sanity check: error should always be nil since regex only allows numbers in last element
 	if err != nil {
-		panic(fmt.Errorf("regex allowed non-number value as last split element for chainID: %s", chainID))
+		// the regex only admits digits in the last element, so the only possible failure is a revision
+		// number which does not fit in 64 bits: such a chainID is not in revision format
+		return 0
 	}
 	return revision
 }
